@@ -151,7 +151,12 @@ def packSpec (m : Msg) (size : Nat) (o : PackOut) : String :=
       | _ => "viol:undecodable"
   else
     let limit := max 512 size
-    if o.out.length > limit then "viol:size"
+    -- uncompressed size of the OPT record the response carries (the last one), 0 when there is none
+    let optLen := match (m.additionals.filter isOpt).getLast? with
+      | some opt => resourcePackLen opt
+      | none => 0
+    -- (when the OPT alone does not leave any budget the code cannot honour the limit: documented corner)
+    if optLen < limit ∧ o.out.length > limit then "viol:size"
     else match unpackMsgEnd o.out with
       | .ok (m', e) =>
         if e ≠ o.out.length then "viol:trailing"
@@ -165,7 +170,8 @@ def packSpec (m : Msg) (size : Nat) (o : PackOut) : String :=
           else if ¬ isSublist m'.questions m.questions then "viol:questions"
           else if ¬ isSublist m'.answers m.answers then "viol:answers"
           else if ¬ isSublist m'.authorities m.authorities then "viol:authorities"
-          else if m.questions.length ≤ 1 ∧ m'.questions ≠ m.questions then "viol:question-dropped"
+          -- a question (≤ 259 octets) and the header always fit beside an OPT of at most 241 octets
+          else if m.questions.length ≤ 1 ∧ optLen ≤ 241 ∧ m'.questions ≠ m.questions then "viol:question-dropped"
           else if (m.additionals.filter isOpt).length = 1 ∧ (m'.additionals.filter isOpt) ≠ (m.additionals.filter isOpt) then "viol:opt-dropped"
           else if msgLen m ≤ limit ∧ (dropped ∨ m'.hdr.truncated ≠ m.hdr.truncated) then "viol:dropped-though-fits"
           else "ok"
